@@ -29,7 +29,7 @@ def one(cand):
     patch = os.path.join(cand, "patch.diff")
     demo = os.path.join(cand, "demo.py")
     res = {"candidate": cand, "property": prop}
-    if not (os.path.exists(patch) and os.path.exists(demo)):
+    if not (os.path.exists(patch) and os.path.exists(demo) and os.path.exists(os.path.join(cand, "meta.json"))):
         res["status"] = "incomplete"
         return res
     clean = tempfile.mkdtemp(prefix="seedclean.")
@@ -55,7 +55,10 @@ def one(cand):
             res["suite_ok"] = "passed" in res["suite_with_mutant"] and "failed" not in res["suite_with_mutant"] and "error" not in res["suite_with_mutant"]
         for label, d in (() if res.get("confirmed") else (("clean", clean), ("mutant", mut))):
             e = dict(env, PYTHONPATH=d, SPP_ROOT=d)
-            rc, out = sh(f"/venv/bin/python {demo}", cwd=d, env=e, timeout=600)
+            try:
+                rc, out = sh(f"/venv/bin/python {demo}", cwd=d, env=e, timeout=600)
+            except subprocess.TimeoutExpired:
+                rc, out = 124, "demo timed out after 600 s"
             res[f"demo_{label}_exit"] = rc
             res[f"demo_{label}_tail"] = out.strip()[-200:]
         res["confirmed"] = bool(res["suite_ok"] and res["demo_clean_exit"] == 0 and res["demo_mutant_exit"] != 0)
